@@ -10,6 +10,7 @@ CONSTANTS
   MaxResets = 0
   MaxByz = 0
   Variant = "code"
+  ProbeHeights = {}
   FullChainUpTo = 0
 VIEW View
 INVARIANTS TypeOK StoredOnTree SyncLeHead LocatorShape BackoffQuality AnswerContiguous RoundsBound Converged NotBehind
